@@ -112,7 +112,7 @@ LongOk == LET g == c[1]  s == c[2] IN
     [] g = "lstr" -> G_String(s) /\ Whole(LexString(s, 1), s)
     [] g = "lblk" -> G_Block(s) /\ Whole(LexBlock(s, 1), s) /\ LexBlock(s, 1).type = "BLOCK"
     [] g = "lexp" -> G_Expr(s) /\ Whole(LexExpr(s, 1), s)
-    [] g = "lunit" -> ((Big \/ Len(s) <= 16) => G_Unit(s)) /\ DetectUnit(s, 1).accepted /\ DetectUnit(s, 1).next = Len(s) + 1
+    [] g = "lunit" -> (Len(s) <= (IF Big THEN 20 ELSE 16) => G_Unit(s)) /\ DetectUnit(s, 1).accepted /\ DetectUnit(s, 1).next = Len(s) + 1
 Emit == Serialize(ToJson([g |-> c[1], b |-> c[2] \o ctx]) \o "\n", IOEnv.OUT,
                   [format |-> "TXT", charset |-> "UTF-8", openOptions |-> <<"WRITE", "CREATE", "APPEND">>]).exitValue = 0
 =============================================================================
